@@ -2,6 +2,7 @@ import PdfModel.Lemmas.TotalLexer
 import PdfModel.Lemmas.TotalStr
 import PdfModel.Lemmas.TotalParser
 import PdfModel.Lemmas.TotalContent
+import PdfModel.Lemmas.TotalContentEI
 import PdfModel.Lemmas.TotalXrefTable
 import PdfModel.Lemmas.TotalOpen
 import PdfModel.Lemmas.TotalGlue
@@ -306,6 +307,15 @@ theorem inline_image_total {R : Type} (env : Env R) (henv : EnvOk env) (buf : Bu
     ∃ b p d, inlineImage env buf o pos = .ok ((b, p), d) ∧ pos ≤ p ∧ p ≤ buf.size ∧
       (∀ s, d = some s → s.1 ≤ s.2 ∧ s.2 ≤ buf.size) :=
   inlineImage_spec env henv buf hs o pos h
+
+/-- The same for the end-of-data search of repo commit 4386f8d (white-space followed by the token `EI`;
+    `data_end = max(pos + i, data_start)`, `offset_pos(i + 3)`): whichever of the two searches the tree has, the
+    position arithmetic is total. -/
+theorem inline_image_ei_total {R : Type} (env : Env R) (henv : EnvOk env) (buf : Buf) (hs : RealSize buf) (o : Oracle)
+    (pos : Nat) (h : pos ≤ buf.size) :
+    ∃ b p d, inlineImageEI env buf o pos = .ok ((b, p), d) ∧ pos ≤ p ∧ p ≤ buf.size ∧
+      (∀ s, d = some s → s.1 ≤ s.2 ∧ s.2 ≤ buf.size) :=
+  inlineImageEI_spec env henv buf hs o pos h
 
 -- ===================================================================================================
 -- 5. cross-reference sections
